@@ -250,6 +250,19 @@ func readAll(p gopacket.Packet, which int) string {
 		sb.WriteString(signature(p))
 	case 1:
 		sb.WriteString(p.String())
+		for _, l := range p.Layers() {
+			// rendered for the race detector's sake; Go syntax can contain
+			// addresses, so the text is not compared
+			func() {
+				// (LayerGoString panics on some decoded layers: total rendering is
+				// property C01, not claimed here; the call is only made for its reads)
+				defer func() { recover() }()
+				_ = gopacket.LayerGoString(l)
+			}()
+			_ = gopacket.LayerDump(l)
+		}
+		_ = p.Data()
+		_ = p.Metadata().CaptureInfo
 	case 2:
 		d := p.Dump()
 		if p.ErrorLayer() != nil {
